@@ -221,9 +221,37 @@ def run_impl(case):
         for oid in sorted(inter):
             iso = run_program(case["steps"], only=oid)
             objects.append({"obj": oid, "interleaved": inter[oid], "isolated": iso.get(oid, [])})
-        return {"objects": objects, "checks": default_file_checks() if case.get("defaults") else {}}
+        return {"objects": objects, "checks": default_file_checks() if case.get("defaults") else {}, "world": world_view(case, inter)}
     except Exception as e:
         return codec.enc_exc(e)
+
+
+RA_REG = {"ident": codec.enc_str("AA"), "digits": 2, "fields": [codec.fd_int(4, 3), codec.fd_lit(5, 8), codec.fd_flt(7, 14, 2)], "delimiter": None}
+
+
+def world_view(case, inter):
+    """the operations that name registers of class RA (and only those), for the Lean World model;
+    by the non-interference theorem the model run on this sub-history must predict the data these
+    registers hold at the end of the FULL interleaved run on the real code"""
+    ra = {s["obj"] for s in case["steps"] if s["op"] == "new_reg" and s["cls"] == "RA"}
+    ops = []
+    for s in case["steps"]:
+        if s["obj"] not in ra:
+            continue
+        if s["op"] == "new_reg":
+            ops.append(["new", s["obj"], s.get("data")])
+        elif s["op"] == "reg_read":
+            ops.append(["read", s["obj"], s["line"]])
+        elif s["op"] == "reg_write":
+            ops.append(["write", s["obj"]])
+        elif s["op"] == "reg_set":
+            ops.append(["set", s["obj"], s["index"], s["value"]])
+    final = []
+    for oid in sorted(ra):
+        last = inter.get(oid, [{}])[-1]
+        if isinstance(last.get("data"), list):
+            final.append([oid, last["data"]])
+    return {"reg": RA_REG, "ops": ops, "final": final}
 
 
 def request(case, obs):
@@ -247,6 +275,8 @@ def judge(case, obs, resp):
             why.append(f"object {o['obj']} differs from its isolated run at its observation #{k}: interleaved {json.dumps(o['interleaved'][k] if k is not None and k < len(o['interleaved']) else None)[:200]} isolated {json.dumps(o['isolated'][k] if k is not None and k < len(o['isolated']) else None)[:200]}")
         if resp.get("failed"):
             why.append(f"{resp['failed']} false")
+        if resp.get("registers_differing_from_world_model"):
+            why.append(f"registers {resp['registers_differing_from_world_model']} hold data the World model of their own operations does not predict")
         return {"status": "oracle", "why": "; ".join(why)}
     return {"status": "ok", "why": ""}
 
